@@ -132,7 +132,7 @@ func (c *Case) TargetKVs() []KV {
 		kvs[i].Key = c.TKey(kvs[i].Key)
 		kvs[i].DB = c.TDBOf(kvs[i].DB)
 		if kvs[i].Type == 15 {
-			kvs[i].Ops = SmallStreamG(string(kvs[i].Key), "field", c.KVs[i].Group).Ops // the commands name the key
+			kvs[i].Ops = streamOpsFor(SmallStreamG(string(kvs[i].Key), "field", c.KVs[i].Group).Ops, c.Ver) // the commands name the key
 		}
 	}
 	return kvs
@@ -195,11 +195,32 @@ func (c *Case) KVList() []KV {
 		for _, it := range k.Items {
 			kv.Items = append(kv.Items, vfutil.UnHex(it))
 		}
+		if k.Type == 7 {
+			kv.Raw, kv.Str = ModuleValue(string(kv.Key)).Raw, nil
+		}
 		if k.Type == 15 {
 			g := SmallStreamG(string(kv.Key), "field", k.Group)
-			kv.Raw, kv.Ops, kv.Str = g.Raw, g.Ops, nil
+			kv.Raw, kv.Ops, kv.Str = g.Raw, streamOpsFor(g.Ops, c.Ver), nil
 		}
 		out = append(out, kv)
+	}
+	return out
+}
+
+// streamOpsFor: a target older than 7 is not sent the 7.0 arguments (XSETID … ENTRIESADDED / MAXDELETEDID, XGROUP … ENTRIESREAD).
+func streamOpsFor(ops [][]string, ver string) [][]string {
+	if ver == "" || ver >= "7" {
+		return ops
+	}
+	var out [][]string
+	for _, op := range ops {
+		switch op[0] {
+		case "xsetid":
+			op = op[:3]
+		case "xgroup":
+			op = op[:5]
+		}
+		out = append(out, op)
 	}
 	return out
 }
@@ -583,6 +604,37 @@ func Check(s *vfutil.Session, c *Case, r *Run) {
 				}
 			}
 		}
+		if r.Final == "err-module" {
+			// a module value that cannot take the RESTORE path (restore off, payload above the limit, or refused by
+			// the target) cannot be replayed at all: the replay stops with this error at the first such key
+			failIdx = -1
+			for i, kv := range kvs {
+				k := DK{kv.DB, string(kv.Key)}
+				existed := pre[k] && r.Before[k] != nil
+				if kv.Type == 7 {
+					restorePath := false
+					for _, e := range r.Ents {
+						if string(c.TKey(e.Key)) == string(kv.Key) && c.TDBOf(e.DB) == kv.DB {
+							restorePath = c.Restore && e.CanRestore && e.DumpSize <= c.MaxBulk && !e.Splited
+						}
+					}
+					probed := c.Mode == "bisync" || c.Mode == "sendbisync" || restorePath // the existing key is met before the value
+					switch {
+					case probed && existed && c.Pol == "ignore":
+						continue
+					case probed && existed && c.Pol == "error":
+					case !restorePath || c.IsBad(kv.Key):
+						failIdx = i
+					}
+					if failIdx >= 0 {
+						break
+					}
+				}
+				if existed && c.Pol == "error" {
+					break
+				}
+			}
+		}
 		if failIdx < 0 {
 			viol(s, "unexpected-error", fmt.Sprintf("replay failed with %s (%s) although no fault was injected", r.Final, r.ErrText), c)
 			return
@@ -629,6 +681,12 @@ func Check(s *vfutil.Session, c *Case, r *Run) {
 		k := DK{kv.DB, string(kv.Key)}
 		existed := pre[k] && r.Before[k] != nil
 		switch {
+		case failed && failIdx == i && r.Final == "err-module":
+			// not replayable (no RESTORE for a module value): the replay fails, the key is as it was
+			s.Count("mon_module_unrestorable")
+			if !SameVal(r.Before[k], r.After[k]) {
+				viol(s, "module-modified", fmt.Sprintf("module value not replayable: key %q changed although the replay failed: %+v -> %+v", k.Key, r.Before[k], r.After[k]), c)
+			}
 		case existed && c.Pol == "ignore":
 			s.Count("mon_ignore_existing")
 			if !SameVal(r.Before[k], r.After[k]) {
@@ -724,12 +782,32 @@ func CheckParallel(s *vfutil.Session, c *Case, r *Run) {
 			mustFail = true
 		}
 	}
+	// a module value that cannot take the RESTORE path cannot be replayed: the replay may stop with err-module
+	mayFail := false
+	for _, kv := range kvs {
+		if kv.Type != 7 {
+			continue
+		}
+		restorable := false
+		for _, e := range r.Ents {
+			if string(c.TKey(e.Key)) == string(kv.Key) && c.TDBOf(e.DB) == kv.DB {
+				restorable = c.Restore && e.CanRestore && e.DumpSize <= c.MaxBulk && !e.Splited && !c.IsBad(kv.Key)
+			}
+		}
+		if !restorable {
+			mayFail = true
+		}
+	}
 	if mustFail && r.Final == "ok" {
 		viol(s, "error-not-raised", "policy error with an existing key: SendRdb returned nil", c)
 	}
-	if !mustFail && r.Final != "ok" {
+	if !mustFail && r.Final != "ok" && !(mayFail && r.Final == "err-module") {
 		viol(s, "unexpected-error", fmt.Sprintf("SendRdb failed with %s: %s", r.Final, r.ErrText), c)
 		return
+	}
+	if mayFail && r.Final != "ok" {
+		s.Count("mon_parallel_module_unrestorable")
+		mustFail = true // the other keys are complete or untouched or cut between chunks — not judged
 	}
 	for _, kv := range kvs {
 		k := DK{kv.DB, string(kv.Key)}
@@ -827,6 +905,10 @@ func genKV(r *vfutil.Rand, i int, dbs int) KVSpec {
 		key = "" // the empty string is a valid Redis key
 	}
 	kv := KVSpec{Key: vfutil.HexS(key), Type: vfutil.Pick(r, []int{0, 0, 1, 2, 3, 4, 4, 4}), Exp: vfutil.Pick(r, []int{0, 0, 1, 2})}
+	if r.Chance(1, 25) {
+		kv.Type = 7 // a module value: RESTORE or nothing
+		return kv
+	}
 	if r.Chance(1, 12) {
 		// a stream, mostly with a consumer group (XGROUP CREATE names the key as its SECOND argument)
 		kv.Type, kv.Group = 15, vfutil.Pick(r, []string{"g", "g", ""})
@@ -866,7 +948,7 @@ func genKV(r *vfutil.Rand, i int, dbs int) KVSpec {
 var Kinds = []string{"string", "list", "hash", "set", "zset", "restored"}
 
 func kindOf(t int) string {
-	if t == 15 {
+	if t == 15 || t == 7 {
 		return "list" // the double has no stream type of its own: any other existing key
 	}
 	return []string{"string", "list", "set", "zset", "hash"}[t]
@@ -951,11 +1033,11 @@ func GenCase(r *vfutil.Rand, mode string, dbs int) *Case {
 		for i := range c.KVs {
 			base := fmt.Sprintf("k%d", i)
 			key := vfutil.Pick(r, []string{"{t}" + base, base + "{t}", "a{" + base + "}z", "}" + base + "{", "{{" + base + "}}", base, "{" + base, "{}" + base, "{}", "}{"})
-			id := fmt.Sprintf("%d/%s", c.KVs[i].DB, c.TKey([]byte(key)))
-			if used[id] {
+			// distinct over ALL DBs: with TargetDb / TargetDbMap two source DBs may share a target DB
+			if used[string(c.TKey([]byte(key)))] {
 				key = base
 			}
-			used[fmt.Sprintf("%d/%s", c.KVs[i].DB, c.TKey([]byte(key)))] = true
+			used[string(c.TKey([]byte(key)))] = true
 			c.KVs[i].Key = vfutil.HexS(key)
 		}
 	}
@@ -1068,6 +1150,55 @@ func ExhaustiveHashTag(mode string) []*Case {
 							c.Pre = []Pre{{Key: tk, Kind: kindOf(ty), TTL: 60000}}
 						case 2:
 							c.Pre = []Pre{{Key: vfutil.HexS(key), Kind: kindOf(ty)}} // the unrewritten name is somebody else's key
+						}
+						out = append(out, c)
+					}
+				}
+			}
+		}
+	}
+	return out
+}
+
+// ExhaustiveBig: a list of 120 elements (the expansion is pipelined and flushed every 100 commands) × policy × prior key.
+func ExhaustiveBig(mode string) []*Case {
+	var out []*Case
+	var items []string
+	for i := 0; i < 120; i++ {
+		items = append(items, vfutil.HexS(fmt.Sprintf("i%03d", i)))
+	}
+	for _, pol := range []string{"replace", "ignore", "error"} {
+		for pm := 0; pm < 2; pm++ {
+			c := &Case{Mode: mode, Pol: pol, Restore: false, MaxBulk: 1 << 29, Ver: "7.0.0",
+				KVs: []KVSpec{{Key: vfutil.HexS("big"), Type: 1, Exp: 2, Items: items}, {Key: vfutil.HexS("z"), Type: 0, Str: vfutil.HexS("2")}}}
+			if pm == 1 {
+				c.Pre = []Pre{{Key: vfutil.HexS("big"), Kind: "list", TTL: 60000}}
+			}
+			out = append(out, c)
+		}
+	}
+	return out
+}
+
+// ExhaustiveModule: a module value (RESTORE or nothing) × policy × restore on/off × prior key × payload refused.
+func ExhaustiveModule(mode string) []*Case {
+	var out []*Case
+	for _, key := range []string{"mk", "{m}k"} {
+		for _, pol := range []string{"replace", "ignore", "error"} {
+			for _, restore := range []bool{false, true} {
+				for pm := 0; pm < 2; pm++ {
+					for _, bad := range []bool{false, true} {
+						if bad && !restore {
+							continue
+						}
+						c := &Case{Mode: mode, Pol: pol, Restore: restore, MaxBulk: 1 << 29, Ver: "7.0.0", HashTag: key != "mk",
+							KVs: []KVSpec{{Key: vfutil.HexS("a"), Type: 0, Str: vfutil.HexS("1")}, {Key: vfutil.HexS(key), Type: 7, Exp: 2}, {Key: vfutil.HexS("z"), Type: 0, Str: vfutil.HexS("2")}}}
+						tk := vfutil.Hex(c.TKey([]byte(key)))
+						if pm == 1 {
+							c.Pre = []Pre{{Key: tk, Kind: "hash", TTL: 60000}}
+						}
+						if bad {
+							c.Bad = []string{tk}
 						}
 						out = append(out, c)
 					}
